@@ -263,6 +263,12 @@ def run(tier):
         alldead = set(dead) if alldead is None else alldead & set(dead)      # degenerate instances legitimately disable some actions
     if alldead:
         raise base.MachineryError("vacuity: actions never taken in any MC instance: %s" % sorted(alldead))
+    # ---- leg 1b: NonNeg and the GTP / NADH capacity bounds as an inductive invariant for symbolic capacities, debt limit, interest and amounts (Apalache)
+    from . import apalache
+    ap = apalache.inductive("MC_MetaApa", "ConstInit", "Init", "IndInit", "IndInv")
+    R.cov["apalache_inductive_invariant"] = dict(ap, query="NonNeg /\\ gtp <= CapGTP /\\ nadh <= CapNADH, capacities / debt limit 0..10^6, amounts 0..2x10^6 symbolic")
+    if not (ap["base"] and ap["step"]):
+        raise base.MachineryError("Metabolism.tla: IndInv is not inductive (Apalache): %s" % ap)
     # ---- leg 2: implementation graph -> TLC
     depth = 6 if quick else 9
     jobs = [(c, amounts, prios, depth, base.seed()) for c in configs(tier)]
